@@ -9,6 +9,8 @@ use incan::frontend::typechecker::TypeChecker;
 use incan_core::{NumericOp, NumericTy, PowExponentKind};
 use incan_syntax::ast::{BinaryOp, Declaration, Expr, Literal, Program, Spanned, Statement, UnaryOp};
 
+const PRELUDE: &str = "model O:\n    n: int\n    w: float\n\n    def mi(self) -> int:\n        return self.n\n\n    def mx(self) -> float:\n        return self.w\n\ndef ga() -> int:\n    return 3\n\ndef gx() -> float:\n    return 2.5\n\n";
+
 const OPS: [(&str, &str); 13] = [
     ("add", "+"), ("sub", "-"), ("mul", "*"), ("div", "/"), ("fdiv", "//"), ("mod", "%"), ("pow", "**"),
     ("eq", "=="), ("ne", "!="), ("lt", "<"), ("le", "<="), ("gt", ">"), ("ge", ">="),
@@ -40,6 +42,22 @@ fn enc(e: &Spanned<Expr>) -> Option<String> {
         Expr::Literal(Literal::Float(_)) => "f".to_string(),
         Expr::Ident(n) if n == "a" || n == "b" => "vi".to_string(),
         Expr::Ident(n) if n == "x" || n == "y" => "vf".to_string(),
+        // operands whose type only the checker knows (calls, fields, method calls): plain int / float operands
+        Expr::Call(f, args) if args.is_empty() => match &f.node {
+            Expr::Ident(n) if n == "ga" => "vi".to_string(),
+            Expr::Ident(n) if n == "gx" => "vf".to_string(),
+            _ => return None,
+        },
+        Expr::Field(o, n) if matches!(&o.node, Expr::Ident(v) if v == "o") => match n.as_str() {
+            "n" => "vi".to_string(),
+            "w" => "vf".to_string(),
+            _ => return None,
+        },
+        Expr::MethodCall(o, n, args) if args.is_empty() && matches!(&o.node, Expr::Ident(v) if v == "o") => match n.as_str() {
+            "mi" => "vi".to_string(),
+            "mx" => "vf".to_string(),
+            _ => return None,
+        },
         Expr::Unary(UnaryOp::Neg, inner) => format!("n({})", enc(inner)?),
         Expr::Paren(inner) => format!("p({})", enc(inner)?),
         Expr::Binary(l, op, r) => format!("{}({},{})", op_name(op)?, enc(l)?, enc(r)?),
@@ -110,7 +128,7 @@ fn plans(e: &TypedExpr, out: &mut Vec<String>) {
 }
 
 fn types_case(out: &mut Out, text: &str) {
-    let src = format!("def f(a: int, b: int, x: float, y: float) -> None:\n    v = {text}\n");
+    let src = format!("{PRELUDE}def f(a: int, b: int, x: float, y: float, o: O) -> None:\n    v = {text}\n");
     let r = catch(|| -> Result<(String, String), String> {
         let prog = parse(&src)?;
         let value = first_stmt_value(&prog).ok_or("no value")?;
@@ -154,10 +172,10 @@ fn types_case(out: &mut Out, text: &str) {
 /// Binding positions: annotated let, return, compound assignment, argument.
 fn bind_case(out: &mut Out, text: &str, pos: &str, annot: &str) {
     let (src, probe) = match pos {
-        "let" => (format!("def f(a: int, b: int, x: float, y: float) -> None:\n    v: {annot} = {text}\n"), "let"),
-        "ret" => (format!("def f(a: int, b: int, x: float, y: float) -> {annot}:\n    return {text}\n"), "ret"),
+        "let" => (format!("{PRELUDE}def f(a: int, b: int, x: float, y: float, o: O) -> None:\n    v: {annot} = {text}\n"), "let"),
+        "ret" => (format!("{PRELUDE}def f(a: int, b: int, x: float, y: float, o: O) -> {annot}:\n    return {text}\n"), "ret"),
         "arg" => (
-            format!("def g(p: {annot}) -> None:\n    pass\n\ndef f(a: int, b: int, x: float, y: float) -> None:\n    g({text})\n"),
+            format!("{PRELUDE}def g(p: {annot}) -> None:\n    pass\n\ndef f(a: int, b: int, x: float, y: float, o: O) -> None:\n    g({text})\n"),
             "arg",
         ),
         _ => return,
@@ -195,7 +213,7 @@ fn bind_case(out: &mut Out, text: &str, pos: &str, annot: &str) {
 }
 
 fn compound_case(out: &mut Out, op: &str, var_ty: &str, text: &str) {
-    let src = format!("def f(a: int, b: int, x: float, y: float) -> None:\n    mut v: {var_ty} = {}\n    v {op}= {text}\n", if var_ty == "int" { "1" } else { "1.5" });
+    let src = format!("{PRELUDE}def f(a: int, b: int, x: float, y: float, o: O) -> None:\n    mut v: {var_ty} = {}\n    v {op}= {text}\n", if var_ty == "int" { "1" } else { "1.5" });
     let r = catch(|| -> Result<(String, String), String> {
         let prog = parse(&src)?;
         let value: Option<Spanned<Expr>> = prog.declarations.iter().find_map(|d| match &d.node {
@@ -220,8 +238,63 @@ fn compound_case(out: &mut Out, op: &str, var_ty: &str, text: &str) {
     }
 }
 
+/// The plan the emitter uses for the desugared `v = v op e`, for a local variable and for a `mut` parameter.
+fn cplan_case(out: &mut Out, op: &str, var_ty: &str, target: &str, text: &str) {
+    let init = if var_ty == "int" { "1" } else { "1.5" };
+    let src = if target == "local" {
+        format!("{PRELUDE}def f(a: int, b: int, x: float, y: float, o: O) -> None:\n    mut v: {var_ty} = {init}\n    v {op}= {text}\n")
+    } else {
+        format!("{PRELUDE}def f(a: int, b: int, x: float, y: float, o: O, mut v: {var_ty}) -> None:\n    v {op}= {text}\n    pass\n")
+    };
+    let idx = if target == "local" { 1 } else { 0 };
+    let r = catch(|| -> Result<(String, String), String> {
+        let prog = parse(&src)?;
+        let value: Option<Spanned<Expr>> = prog.declarations.iter().find_map(|d| match &d.node {
+            Declaration::Function(f) if f.name == "f" => f.body.get(idx).and_then(|st| match &st.node {
+                Statement::CompoundAssignment(c) => Some(c.value.clone()),
+                _ => None,
+            }),
+            _ => None,
+        });
+        let value = value.ok_or("no value")?;
+        let e = enc(&value).ok_or("outside-fragment")?;
+        let mut tc = TypeChecker::new();
+        if tc.check_program(&prog).is_err() {
+            return Ok((e, "reject".to_string()));
+        }
+        let mut low = AstLowering::new_with_type_info(tc.type_info().clone());
+        let irp = low.lower_program(&prog).map_err(|_| "lowererr".to_string())?;
+        let mut real = "plan=none".to_string();
+        for d in &irp.declarations {
+            if let IrDeclKind::Function(f) = &d.kind {
+                if f.name == "f" {
+                    if let Some(st) = f.body.get(idx) {
+                        let v = match &st.kind {
+                            IrStmtKind::Assign { value, .. } => Some(value),
+                            IrStmtKind::Let { value, .. } => Some(value),
+                            _ => None,
+                        };
+                        if let Some(v) = v {
+                            let mut pl = Vec::new();
+                            plans(v, &mut pl);
+                            real = format!("plan={}", pl.first().cloned().unwrap_or_else(|| "-".into()));
+                        } else {
+                            real = format!("plan=stmt:{}", format!("{:?}", st.kind).chars().take(40).collect::<String>().replace(' ', "_"));
+                        }
+                    }
+                }
+            }
+        }
+        Ok((e, real))
+    });
+    if let Ok(Ok((e, real))) = r {
+        let name = OPS.iter().find(|(_, s)| *s == op).map(|(n, _)| *n).unwrap_or("?");
+        out.case(&format!("c07 cplan {name} {var_ty} {target} {e}"), &real);
+    }
+}
+
 fn atoms() -> Vec<&'static str> {
-    vec!["a", "x", "3", "0", "2.5", "-1", "-0", "(2)", "(-2)", "-(0)", "-(3)", "(-(0))", "-x", "-a", "((b))"]
+    vec!["a", "x", "3", "0", "2.5", "-1", "-0", "(2)", "(-2)", "-(0)", "-(3)", "(-(0))", "-x", "-a", "((b))", "ga()", "gx()", "o.n", "o.w", "o.mi()", "o.mx()"]
 }
 
 fn gen_expr(rng: &mut Rng, depth: u32) -> String {
@@ -301,11 +374,13 @@ pub fn run(out: &mut Out, tier: &str, seed: u64) {
         for r in &at {
             for vt in ["int", "float"] {
                 compound_case(out, sym, vt, r);
+                cplan_case(out, sym, vt, "local", r);
+                cplan_case(out, sym, vt, "param", r);
             }
         }
     }
     // depth 2: op(op(atom, atom), atom) with a reduced atom set, both groupings
-    let small = ["a", "x", "2", "-1", "(0)"];
+    let small = ["a", "x", "2", "-1", "(0)", "gx()", "o.n"];
     for (_, s1) in &OPS[0..7] {
         for (_, s2) in &OPS[0..7] {
             for p in small {
